@@ -31,6 +31,17 @@ type Obligation struct {
 	vc       *VC
 	inputs   []ModelVar
 	FileHint string `json:"-"`
+	rp       *replayCtx // what a generic replay needs (function, parameter values, results at exit)
+}
+
+// replayCtx: enough of the symbolic state to turn a model into a call of the real function.
+type replayCtx struct {
+	fn      *ssa.Function
+	params  []Value
+	names   []string
+	results []Value           // at post obligations: the merged results
+	exitE   map[string]string // element components in the exit state (for slice results)
+	init    map[string]string // initial versions of the components (name -> term)
 }
 
 type ModelVar struct {
@@ -109,6 +120,10 @@ type Exec struct {
 
 	entry   *State
 	entryW  string
+	rpParams  []Value
+	rpNames   []string
+	rpResults []Value
+	rpExitE   map[string]string
 	params  map[string]Value
 	mods    []modEntry
 	hasMods bool
@@ -294,6 +309,13 @@ func (e *Exec) oblige(class, label, clauseText string, props []string, guard, go
 	}
 	o := &Obligation{Name: name, Func: e.Key, Class: class, Label: label, Anchor: anchor, Pos: e.posOf(pos), Clause: clauseText,
 		Props: props, prefix: len(e.vc.lines), goal: goal, reach: reach, vc: e.vc, inputs: e.inputs}
+	if e.rpParams != nil {
+		o.rp = &replayCtx{fn: e.Fn, params: e.rpParams, names: e.rpNames, init: e.compInit}
+		if class == "post" && e.rpResults != nil {
+			o.rp.results = e.rpResults
+			o.rp.exitE = e.rpExitE
+		}
+	}
 	e.vc.obls = append(e.vc.obls, o)
 }
 
